@@ -54,7 +54,7 @@ def selected_output(rng, n, elems=("Na", "Cl", "Ca", "K")):
     return L
 
 
-def user_punch(rng, n):
+def user_punch(rng, n, no_simno=False):
     nh = rng.randint(0, 4)
     nv = max(0, nh + rng.choice([0, 0, 0, 1, 2, -1]))
     heads = rng.sample(["alpha", "beta", "gam_ma", "d", "pH", "Na_tot", "x1", "a_very_long_heading_name_that_exceeds_twelve_chars"], nh)
@@ -69,14 +69,14 @@ def user_punch(rng, n):
         if k < 0.25:
             vals.append('"%s"' % rng.choice(["str", "a b", "", "x", "long string value here"]))
         elif k < 0.5:
-            vals.append(rng.choice(["MU", "-LA(\"H+\")", "TOT(\"Na\")", "TC", "SIM_NO", "STEP_NO", "CELL_NO"]))
+            vals.append(rng.choice(["MU", "-LA(\"H+\")", "TOT(\"Na\")", "TC", "STEP_NO" if no_simno else "SIM_NO", "STEP_NO", "CELL_NO"]))
         elif k < 0.7:
             vals.append(repr(rng.choice([0, 1, -1, 3.5, 1e-30, 1e300, 123456789.123, -2.5e-7, 1 / 3.0])))
         else:
             vals.append("%d*%d+%g" % (rng.randint(-5, 5), rng.randint(0, 9), rng.uniform(-1, 1)))
     if nv and rng.random() < 0.3:
         # conditional punch: fewer values on some rows
-        L.append(" %d IF (SIM_NO > 1) THEN PUNCH %s" % (ln, vals[-1]))
+        L.append(" %d IF (%s) THEN PUNCH %s" % (ln, "TC > 30" if no_simno else "SIM_NO > 1", vals[-1]))
         ln += 10
         vals = vals[:-1]
     if vals:
@@ -97,7 +97,7 @@ def reaction_step(rng, n):
     return ["MIX 1", " %d 0.5" % n, " %d 0.5" % n]
 
 
-def multi_sim_input(rng, nsims=None, user_numbers=None, allow_redefine=True):
+def multi_sim_input(rng, nsims=None, user_numbers=None, allow_redefine=True, no_simno=False):
     """An error-free multi-simulation input with SELECTED_OUTPUT/USER_PUNCH blocks. Returns (text, info)."""
     nsims = nsims or rng.randint(1, 4)
     uns = user_numbers if user_numbers is not None else sorted(rng.sample([1, 2, 3, 5, 22, 100], rng.randint(0, 3)))
@@ -114,7 +114,7 @@ def multi_sim_input(rng, nsims=None, user_numbers=None, allow_redefine=True):
             for n in uns:
                 L += selected_output(rng, n)
                 if rng.random() < 0.7:
-                    up, nh, nv = user_punch(rng, n)
+                    up, nh, nv = user_punch(rng, n, no_simno)
                     L += up
                     info["punch"][n] = (nh, nv)
         elif allow_redefine and uns and rng.random() < 0.25:
